@@ -145,8 +145,8 @@ theorem visitStmt_gfor_scoped (names : List TName) (values : List Expr) (body : 
     (h2 : P.stmtNode st1 s1 = (.gfor names values body, s2)) :
     visitStmt P true (n + 1) st s =
       let r0 := mapS (visitExpr P true n) values s2
-      let r1 := mapS (tnameInsert P.insert) names (P.push r0.2)
-      let r2 := mapS (tnameTy (visitTy P true n)) r1.1 r1.2
+      let r1 := mapS (tnameTy (visitTy P true n)) names r0.2
+      let r2 := mapS (tnameInsert P.insert) r1.1 (P.push r1.2)
       let r3 := P.scope body none r2.2
       let r4 := visitBlock P true n true r3.1.1 r3.2
       P.afterStmtNode (.gfor r2.1 r0.1 r4.1) (P.pop r4.2) := by
@@ -273,12 +273,18 @@ theorem visitStmt_local_default (kind : LocalKind) (names : List TName) (values 
   · rw [h2]
     all_goals (first | rfl | (simp only [↓reduceIte, Bool.false_eq_true]; try rfl))
 
-theorem visitStmt_localFn_scoped (kind : LocalKind) (name : String) (body : FnBody)
-    (h2 : P.stmtNode st1 s1 = (.localFn kind name body, s2)) :
+theorem visitStmt_localFn_scoped (kind : LocalKind) (name : String)
+    (params : List TName) (variadic : Bool) (varTy ret : Option Ty) (generics attrs : List String) (blk : Block)
+    (h2 : P.stmtNode st1 s1 = (.localFn kind name (.mk params variadic varTy ret generics attrs blk), s2)) :
     visitStmt P true (n + 1) st s =
-      let a := P.insertLocalFn name s2
-      let b := visitFnBody P true n false body a.2
-      P.afterStmtNode (.localFn kind a.1 b.1) b.2 := by
+      let a1 := mapS (tnameTy (visitTy P true n)) params s2
+      let a2 := optS (visitTy P true n) varTy a1.2
+      let a3 := optS (visitTy P true n) ret a2.2
+      let a4 := P.insertLocalFn name a3.2
+      let a6 := mapS (tnameInsert P.insert) a1.1 (P.push a4.2)
+      let a7 := P.scope blk none a6.2
+      let a8 := visitBlock P true n true a7.1.1 a7.2
+      P.afterStmtNode (.localFn kind a4.1 (.mk a6.1 variadic a2.1 a3.1 generics attrs a8.1)) (P.pop a8.2) := by
   open_processor P
   rw [visitStmt]
   dsimp only at h1 h2 ⊢
@@ -353,15 +359,37 @@ theorem visitStmt_typeDecl (ex : Bool) (name : String) (ty : Ty)
   · rw [h2]
     all_goals (first | rfl | (simp only [↓reduceIte, Bool.false_eq_true]; try rfl))
 
-theorem visitStmt_typeFn (ex : Bool) (name : String)
+theorem visitStmt_typeFn_scoped (ex : Bool) (name : String)
     (params : List TName) (variadic : Bool) (varTy ret : Option Ty) (generics attrs : List String) (blk : Block)
     (h2 : P.stmtNode st1 s1 = (.typeFn ex name (.mk params variadic varTy ret generics attrs blk), s2)) :
-    visitStmt P sc (n + 1) st s =
+    visitStmt P true (n + 1) st s =
+      let a1 := mapS (tnameTy (visitTy P true n)) params s2
+      let a2 := optS (visitTy P true n) varTy a1.2
+      let a3 := optS (visitTy P true n) ret a2.2
+      let a5 := mapS (tnameInsert P.insert) a1.1 (P.push a3.2)
+      let a6 := P.scope blk none a5.2
+      let a7 := visitBlock P true n true a6.1.1 a6.2
+      P.afterStmtNode (.typeFn ex name (.mk a5.1 variadic a2.1 a3.1 generics attrs a7.1)) (P.pop a7.2) := by
+  open_processor P
+  rw [visitStmt]
+  dsimp only at h1 h2 ⊢
+  rw [h1]
+  dsimp only
+  split
+  · simp [isCallStmt] at hc
+  · rw [h2]
+    all_goals (first | rfl | (simp only [↓reduceIte, Bool.false_eq_true]; try rfl))
+
+
+theorem visitStmt_typeFn_default (ex : Bool) (name : String)
+    (params : List TName) (variadic : Bool) (varTy ret : Option Ty) (generics attrs : List String) (blk : Block)
+    (h2 : P.stmtNode st1 s1 = (.typeFn ex name (.mk params variadic varTy ret generics attrs blk), s2)) :
+    visitStmt P false (n + 1) st s =
       let a1 := P.scope blk none s2
-      let a2 := visitBlock P sc n true a1.1.1 a1.2
-      let a3 := mapS (tnameTy (visitTy P sc n)) params a2.2
-      let a4 := optS (visitTy P sc n) varTy a3.2
-      let a5 := optS (visitTy P sc n) ret a4.2
+      let a2 := visitBlock P false n true a1.1.1 a1.2
+      let a3 := mapS (tnameTy (visitTy P false n)) params a2.2
+      let a4 := optS (visitTy P false n) varTy a3.2
+      let a5 := optS (visitTy P false n) ret a4.2
       P.afterStmtNode (.typeFn ex name (.mk a3.1 variadic a4.1 a5.1 generics attrs a2.1)) a5.2 := by
   open_processor P
   rw [visitStmt]
@@ -372,6 +400,7 @@ theorem visitStmt_typeFn (ex : Bool) (name : String)
   · simp [isCallStmt] at hc
   · rw [h2]
     all_goals (first | rfl | (simp only [↓reduceIte, Bool.false_eq_true]; try rfl))
+
 
 theorem visitStmt_other (c : Expr) (h2 : P.stmtNode st1 s1 = (.callStmt c, s2)) :
     visitStmt P sc (n + 1) st s = P.afterStmtNode (.callStmt c) s2 := by
